@@ -115,7 +115,16 @@ Definition printable (c : N) : bool := (32 <=? c) && (c <? 127).
 Definition is_alnum (c : N) : bool := is_alpha c || is_digit c.
 Definition edit_nonempty (e : fedit) : bool :=
   negb (is_nil (flag_chars is_on e)) || negb (is_nil (flag_chars is_off e)).
-Definition range_ok (r : N * N) : bool := is_alnum (fst r) && is_alnum (snd r) && (fst r <=? snd r).
+(* a range of letters/digits, or one of a few punctuation characters on its own *)
+Definition class_punct (c : N) : bool := existsb (N.eqb c) [44; 46; 58; 95].      (* , . : _ *)
+Definition range_ok (r : N * N) : bool :=
+  (is_alnum (fst r) && is_alnum (snd r) && (fst r <=? snd r)) || (class_punct (fst r) && (fst r =? snd r)).
+Definition repk_ok (k : repk) : bool :=
+  match k with
+  | Count lo (Some hi) => (lo <=? hi)%nat && (hi <=? 1000)%nat
+  | Count lo None => (lo <=? 1000)%nat
+  | _ => true
+  end.
 Definition quote_ok (s : str) : bool := forallb (fun c => printable c && negb (c =? 92)) s.
 Definition gkind_ok (g : gkind) : bool := match g with Flagged e => edit_nonempty e | _ => true end.
 Definition operand_ok (x : item) : bool :=
@@ -127,7 +136,7 @@ Fixpoint item_ok (x : item) : bool :=
   | Lit c => printable c || (c =? 10)
   | Any | Bol | Eol | Bar => true
   | Class _ rs => negb (is_nil rs) && forallb range_ok rs
-  | Rep _ y => operand_ok y && item_ok y
+  | Rep k y => repk_ok k && operand_ok y && item_ok y
   | Group g body => gkind_ok g && forallb item_ok body
   | SetFlags e => edit_nonempty e
   | Quote closed s => closed && quote_ok s
